@@ -382,12 +382,16 @@ class Node(object):
         Decides if priority preemption is needed, finds the individual to preempt, and preempt them.
         """
         if self.priority_preempt != False:
-            least_priority = max(s.cust.priority_class for s in self.servers)
+            # customers who have finished service (blocked) or whose server is working overtime cannot be preempted
+            candidates = [s.cust for s in self.servers if s.cust and not s.cust.is_blocked and not s.offduty]
+            if len(candidates) == 0:
+                return
+            least_priority = max(cust.priority_class for cust in candidates)
             if individual.priority_class < least_priority:
                 least_prioritised_individuals = [
-                    s.cust
-                    for s in self.servers
-                    if s.cust.priority_class == least_priority
+                    cust
+                    for cust in candidates
+                    if cust.priority_class == least_priority
                 ]
                 individual_to_preempt = max(
                     [ind for ind in least_prioritised_individuals],
